@@ -146,7 +146,9 @@ static void collect_tsan(Result& R) { if (g_tsan_log.empty()) return; std::map<s
 struct Sub { std::string name; int team, bound; std::function<std::string()> scenario; std::function<std::string(const std::string&)> judge; unsigned long (*hash)(); std::string reference; };
 
 static void explore(Result& R) {
-    const bool th = R.args.thorough(); const std::string variant = R.args.variant; const bool functional = variant.rfind("plain", 0) == 0;
+    const std::string variant = R.args.variant; const bool functional = variant.rfind("plain", 0) == 0;
+    const bool th = R.args.thorough() && functional;   // the deeper bounds and larger teams of the thorough tier in the plain builds; the sanitizer and lockset builds (3-20x slower per schedule) keep the quick-tier bounds there
+    R.tables["build"]["deep_bounds"] += th ? 1 : 0;
     find_tsan_log(variant);
     sc::Mesh ico = sc::icosphere(1); for (int i = 0; i < 4; i++) g_div_meshes.push_back(sc::translated(ico, 4.0 * i, 0, 0)); g_div_type = sc::make_cell_type(0, 3);
     std::vector<Sub> subs;
